@@ -39,7 +39,10 @@ CFG = dict(
                "edge vector panics at call time, a label type without a null unwinds iff the input holds a null, and a NaN "
                "edge loses totality (witness). Binary64 theorems depend on FloatAxioms.{eqb,ltb,leb}_spec only. Not "
                "restated: the run form (9),(10) on carriers other than Z (subsumed by the positional theorems); no f32 "
-               "instance of its own. The model is tied to the code by an exhaustive small-scope differential run.",
+               "instance of its own. The model is tied to the code by an exhaustive small-scope differential run. "
+               "Second, static tie (translator): the label-count guards, the materialised edge vector, the comparison operators / bounds / open ends of both vcut closures, the null and unmatched results, and the Keep::First / Keep::Last / vsorted_unique decision tables (run test, sentinel chain(once(None)), what is emitted and stored) are re-extracted from valid_iter.rs on every run and Proofs/SrcTablesMapBin.v re-proves, for every element type, comparison functions, edges, labels and series, that Model/Binning.v uses exactly those (src_vcut_conforms, src_vcut_call_conforms, src_uidx_first_conforms, src_uidx_last_conforms, src_vsorted_unique_conforms).",
+    src_tables=True,   # tools/gen_tables.py (+ gen_tables_map.py): decision tables regenerated from the Rust source on every run
+    src_tables_proofs=["Proofs/SrcTablesMapBin.vo"],
     level_note="Trusted: Coq kernel; the hand-written model of valid_iter.rs (vcut, vsorted_unique_idx, vsorted_unique) "
                "and of itertools::tuple_windows / zip / enumerate / filter_map / chain(once); the harness and comparator. "
                "Edges are assumed non-null (a None edge of an Option<T> edge vector unwraps and panics; out of the "
